@@ -59,6 +59,15 @@ Theorem C13_cast_to_distinct : forall fx t u, cast fx t (Distinct u t) = true.
 Proof. exact cast_to_distinct. Qed.
 Print Assumptions C13_cast_to_distinct.
 
+(* the plain-assignment position (`dest = value`) does NOT satisfy the law, for any variant:
+   finding C13-4 (is_weak_replaceable_by shortcut of the assignment statement) *)
+Definition C13_assignment_law (fx : fixes) : Prop :=
+  forall value dest, is_nominal value = true -> assign_outcome fx value dest = Ok Accept ->
+                     ntarget fx value dest <> NT_cross.
+Theorem C13_assignment_law_refuted : forall fx, ~ C13_assignment_law fx.
+Proof. exact assignment_law_refuted. Qed.
+Print Assumptions C13_assignment_law_refuted.
+
 Example C13_ex_cross_rejected :
   fit no_fixes (Distinct 1 (IInt 32)) (Distinct 2 (IInt 32)) = false /\
   fit no_fixes (Distinct 1 (IInt 32)) (IInt 32) = false /\
